@@ -10,6 +10,7 @@ package beacon
 import (
 	"bytes"
 	"context"
+	"errors"
 	"fmt"
 	"os"
 	"sort"
@@ -39,6 +40,7 @@ type c10Case struct {
 	Target  uint64   `json:"target"`
 	Chain   uint64   `json:"chain_length"`
 	Damage  []string `json:"damage,omitempty"` // repair: "del:5", "corrupt:7"
+	FailPutAt int    `json:"fail_put_at,omitempty"`
 	Seed    uint64   `json:"seed"`
 }
 
@@ -63,8 +65,19 @@ func c10Gen(idx int) c10Case {
 	for i := 0; i < np; i++ {
 		c.Peers = append(c.Peers, c10Behaviours[rng.Intn(len(c10Behaviours))])
 	}
-	if rng.Chance(85) { // most cases have an honest peer; the others check that nothing bad is stored
+	liarsOnly := c.Mode == "follow" && rng.Chance(45) // no honest peer: the liars are certainly consulted; nothing bad may be stored
+	if liarsOnly {
+		liars := []string{"valid-skipping", "valid-from-beyond", "wrong-round-label", "bad-signature", "foreign-beacon-id", "closes-after-k"}
+		for i := range c.Peers {
+			c.Peers[i] = liars[rng.Intn(len(liars))]
+		}
+		c.Peers[0] = []string{"valid-skipping", "valid-from-beyond"}[rng.Intn(2)]
+	} else if rng.Chance(85) { // most cases have an honest peer; the others check that nothing bad is stored
 		c.Peers[rng.Intn(np)] = "honest"
+	}
+	c.FailPutAt = 0
+	if c.Mode != "repair" && rng.Chance(40) {
+		c.FailPutAt = rng.Range(1, 4) // the k-th write to the database fails once (transient storage fault)
 	}
 	if c.Mode == "repair" {
 		if c.Backend == "memdb" {
@@ -174,6 +187,8 @@ type c10Tap struct {
 	puts   int
 	raw    bool // the insecure store used by repair: order is not demanded, validity is
 	allow  map[uint64]bool
+	failAt int  // the k-th Put of a round >= 1 fails once
+	seen   int
 }
 
 func (t *c10Tap) Put(ctx context.Context, b *common.Beacon) error {
@@ -202,6 +217,16 @@ func (t *c10Tap) Put(ctx context.Context, b *common.Beacon) error {
 				fmt.Sprintf("round %d stored while the head is %d", b.Round, t.head), info)
 		}
 		t.mu.Unlock()
+	}
+	if b.Round > 0 && t.failAt > 0 {
+		t.mu.Lock()
+		t.seen++
+		hit := t.seen == t.failAt
+		t.mu.Unlock()
+		if hit {
+			t.run.Count("transient_put_failures_injected", 1)
+			return errors.New("vf: injected transient storage failure")
+		}
 	}
 	err := t.Store.Put(ctx, b)
 	if err == nil {
@@ -266,6 +291,14 @@ func c10Participant(run *vfRun, c c10Case) {
 	}
 	kind := map[bool]string{true: "chained", false: "unchained"}[nt.chained()]
 	var head uint64 = c.Start
+	var seenPuts int64
+	nt.failPut = func(n *vfbNode, b *common.Beacon) error {
+		if c.FailPutAt > 0 && b.Round > c.Start && atomic.AddInt64(&seenPuts, 1) == int64(c.FailPutAt) {
+			run.Count("transient_put_failures_injected", 1)
+			return errors.New("vf: injected transient storage failure")
+		}
+		return nil
+	}
 	nt.onPut = func(n *vfbNode, b *common.Beacon, src string, seq int64) {
 		if b.Round == 0 || src == "bootstrap" {
 			return
@@ -356,7 +389,7 @@ func c10Follow(run *vfRun, c c10Case) {
 	}
 	ctx, cancel := context.WithCancel(context.Background())
 	defer cancel()
-	tap := &c10Tap{Store: base, run: run, nt: nt, c: c, valid: valid}
+	tap := &c10Tap{Store: base, run: run, nt: nt, c: c, valid: valid, failAt: c.FailPutAt}
 	// exactly what core.StartFollowChain does: genesis into the raw store, scheme store, callback store, no append store
 	if err := tap.Store.Put(ctx, chain.GenesisBeacon(nt.group.GenesisSeed)); err != nil {
 		run.Inconclusive(err.Error())
@@ -603,7 +636,7 @@ func TestVF_C10(t *testing.T) {
 	vfsInstallHook()
 	run := vfNewRun("C10", "syncnet")
 	defer run.Finish()
-	n := vfPick(60, 600)
+	n := vfPick(120, 900)
 	lo, hi := 0, n
 	if ri, ok := vfReplayCase(); ok {
 		lo, hi = ri, ri+1
